@@ -7,6 +7,22 @@ use crate::engine::{Avx2, Ssse3};
 use crate::engine::Neon;
 
 // ======================================================================
+// VERIFICATION HOOKS
+
+// Shadows `std::is_x86_feature_detected!` within this file so that
+// a harness can hide features which the CPU really has.
+#[cfg(all(
+    feature = "verif-hooks",
+    any(target_arch = "x86", target_arch = "x86_64")
+))]
+macro_rules! is_x86_feature_detected {
+    ($feature:tt) => {
+        (std::is_x86_feature_detected!($feature)
+            && crate::verif_hooks::feature_allowed($feature))
+    };
+}
+
+// ======================================================================
 // DefaultEngine - PUBLIC
 
 /// [`Engine`] that at runtime selects the best Engine.
